@@ -54,6 +54,18 @@ Bases == <<
   body |-> <<Def1("issued", I(0)), Func("ticket", <<>>, <<"int">>, <<Inc("issued"), PrintS(<<StrL("ticket"), V("issued")>>), RetS(<<V("issued")>>)>>),
              Def(<<"kept", "spare">>, <<I(1), Bin("+", CallE("ticket", <<>>), I(1))>>), Asg(<<"kept", "spare">>, <<Bin("+", V("kept"), I(1)), Bin("*", CallE("ticket", <<>>), I(2))>>),
              Asg(<<"spare", "kept">>, <<LenE(Itoa(CallE("ticket", <<>>))), Bin("+", V("kept"), I(1))>>), PrintS(<<V("kept"), V("issued")>>)>>],
+ \* twelve functions, each with its own local; the last ones call the first ones between a write and a read of their local (names that the
+ \* back-ends build from a name and a function NUMBER must not run into each other: x1 in function 1 and x in function 11)
+ [name |-> "manyfuncs", vars |-> <<"la", "lb", "lc", "lj", "lk", "ll">>, funcs |-> <<>>,
+  body |-> <<Func("g1", <<Param("v", "int")>>, <<"int">>, <<Def1("la", Bin("+", V("v"), I(1))), RetS(<<V("la")>>)>>),
+             Func("g2", <<Param("v", "int")>>, <<"int">>, <<Def1("lb", Bin("+", V("v"), I(2))), RetS(<<V("lb")>>)>>),
+             Func("g3", <<Param("v", "int")>>, <<"int">>, <<Def1("lc", Bin("+", V("v"), I(3))), RetS(<<V("lc")>>)>>),
+             Func("g4", <<>>, <<"int">>, <<RetS(<<I(4)>>)>>), Func("g5", <<>>, <<"int">>, <<RetS(<<I(5)>>)>>), Func("g6", <<>>, <<"int">>, <<RetS(<<I(6)>>)>>),
+             Func("g7", <<>>, <<"int">>, <<RetS(<<I(7)>>)>>), Func("g8", <<>>, <<"int">>, <<RetS(<<I(8)>>)>>), Func("g9", <<>>, <<"int">>, <<RetS(<<I(9)>>)>>),
+             Func("g10", <<Param("v", "int")>>, <<"int">>, <<Def1("lj", I(100)), Def1("got", CallE("g1", <<V("v")>>)), RetS(<<Bin("+", V("lj"), V("got"))>>)>>),
+             Func("g11", <<Param("v", "int")>>, <<"int">>, <<Def1("lk", I(200)), Def1("got", CallE("g1", <<V("v")>>)), RetS(<<Bin("+", V("lk"), V("got"))>>)>>),
+             Func("g12", <<Param("v", "int")>>, <<"int">>, <<Def1("ll", I(300)), Def1("got", CallE("g2", <<V("v")>>)), RetS(<<Bin("+", V("ll"), Bin("+", V("got"), CallE("g3", <<V("v")>>)))>>)>>),
+             PrintS(<<CallE("g10", <<I(1)>>), CallE("g11", <<I(1)>>), CallE("g12", <<I(1)>>), Bin("+", Bin("+", CallE("g4", <<>>), CallE("g5", <<>>)), Bin("+", Bin("+", CallE("g6", <<>>), CallE("g7", <<>>)), Bin("+", CallE("g8", <<>>), CallE("g9", <<>>))))>>)>>],
  \* caller and callee use the SAME spelling for a local, a parameter and a loop variable; the caller's are live across the call
  [name |-> "samelocal", vars |-> <<"acc", "val", "i">>, funcs |-> <<"inner", "outer">>,
   body |-> <<Func("inner", <<Param("val", "int")>>, <<"int">>, <<Def1("acc", I(0)), For3(Def1("i", I(0)), CmpE("<", V("i"), V("val")), Inc("i"), <<Compound("acc", "+", I(2))>>), RetS(<<V("acc")>>)>>),
@@ -126,10 +138,13 @@ Quads == {<<"func", "add", "twice", "sum", "dbl">>, <<"func", "add", "twice", "l
           <<"globalinfunc", "bump", "bump", "local", "by">>, <<"callerlocal", "work", "helper", "keep", "acc">>, <<"callerlocal", "helper", "work", "acc", "keep">>,
           <<"callerlocal", "work", "helper", "extra", "acc">>}
 BaseNamed(n) == AllBases[CHOOSE b \in 1..Len(AllBases) : AllBases[b].name = n]
+NumPairs == {Mk("C10/manyfuncs/numpair/" \o pr[1] \o "=" \o pr[2] \o "+" \o pr[3] \o "=" \o pr[4], BaseNamed("manyfuncs"), [v |-> (pr[1] :> pr[2]) @@ (pr[3] :> pr[4]), f |-> Empty], FALSE)
+             : pr \in {<<"la", "x1", "lk", "x">>, <<"la", "x", "lk", "x1">>, <<"la", "x1", "lj", "x">>, <<"la", "x0", "lj", "x">>, <<"la", "x", "lj", "x0">>, <<"lb", "x1", "ll", "x">>, <<"lb", "y2", "ll", "y">>,
+                          <<"lb", "y", "ll", "y2">>, <<"lc", "z1", "ll", "z">>, <<"la", "w_1", "lk", "w">>, <<"la", "w", "lk", "w_1">>, <<"la", "n_", "lk", "n_1">>, <<"la", "f11", "lk", "f1">>, <<"la", "_1", "lk", "_">>}}
 Compose == {Mk("C10/" \o q[1] \o "/compose/" \o t[1] \o "-" \o t[2] \o "-" \o t[3] \o "-" \o t[4] \o "/" \o o \o "/" \o q[4], BaseNamed(q[1]),
                IF o = "ab" THEN [v |-> (q[4] :> t[3]) @@ (q[5] :> t[4]), f |-> (IF q[2] = q[3] THEN (q[2] :> t[1]) ELSE (q[2] :> t[1]) @@ (q[3] :> t[2]))]
                ELSE [v |-> (q[4] :> t[4]) @@ (q[5] :> t[3]), f |-> (IF q[2] = q[3] THEN (q[2] :> t[2]) ELSE (q[2] :> t[2]) @@ (q[3] :> t[1]))], FALSE)
             : q \in Quads, t \in {x \in Templates : LegalT(x)}, o \in {"ab", "ba"}}
-All == Shape \cup ShapePair \cup FuncShape \cup Identity \cup OneVar \cup OneFunc \cup Compose \cup CasePairs \cup AllCasePairs \cup FuncCasePairs \cup Rotate
+All == NumPairs \cup Shape \cup ShapePair \cup FuncShape \cup Identity \cup OneVar \cup OneFunc \cup Compose \cup CasePairs \cup AllCasePairs \cup FuncCasePairs \cup Rotate
 ASSUME ndJsonSerialize("fam.ndjson", SetToSeq(All))
 =============================================================================
